@@ -9,7 +9,7 @@ Definition prefix {A : Type} (a b : list A) : Prop := exists r, b = a ++ r.
 (* the worker has read requests[0] and has neither popped it nor cleared the list *)
 Definition serving (pc : wkpc) : bool :=
   match pc with
-  | WSvConn
+  | WSvConn | WSvWc
   | WWsConn | WWsAcq | WWsHw | WWsConn2 | WWsRelX | WWsRot | WWsApp | WWsTotR | WWsTotW _
   | WWsChk | WWsFl _ | WWsExcW | WWsChk2 | WWsTrig | WWsRel
   | WCbAcq | WCbCwf | WCbReq | WCbClr
@@ -25,7 +25,7 @@ Definition execd (pc : wkpc) : bool :=
   | _ => false
   end.
 Definition is_cb2 (pc : wkpc) : bool := match pc with WCbReq | WCbClr => true | _ => false end.
-Definition is_svconn (pc : wkpc) : bool := match pc with WSvConn => true | _ => false end.
+Definition is_svconn (pc : wkpc) : bool := match pc with WSvConn | WSvWc => true | _ => false end.
 
 Definition io_app (pc : iopc) : bool :=
   match pc with IoRcItem | IoRcChk | IoRcSc _ | IoRcApp | IoRcApp2 | IoRcLen | IoRcAt _ => true | _ => false end.
